@@ -3790,6 +3790,11 @@ class Network(Cached):
             # FIXME: check why there was a problem with ==1
             if len(comp) < 2:
                 nsi_newman_betweenness[comp[0]] = 0
+                #  No walks pass an isolated node, but the correction for
+                #  local ends (2 W - k*) k* with k* = W = w remains
+                if add_local_ends:
+                    nsi_newman_betweenness[comp[0]] = \
+                        self.node_weights[comp[0]] ** 2
             #  For larger components, continue with the calculation
             else:
                 #  Get the subgraph corresponding to component i
